@@ -311,6 +311,24 @@ def check_sites(rep, m, cname):
 
 # ---------------------------------------------------------------------------
 def rule_compare(rep, m, cname):
+    """the shape proof below is tried on a scratch report; anything it would flag is confirmed with a concrete
+    witness (equal tags, all 128 single-bit differences) before it becomes a violation, otherwise it is unproved:
+    a mis-recognised loop shape must never raise an alarm"""
+    from . import report as _report
+    probe = _report.Report("C02", "quick")
+    probe._known = []
+    for r in rep.rules:
+        probe.rule(r, "")
+    _rule_compare_shape(probe, m, cname)
+    rid = "C02.D4"
+    if probe.violations:
+        f = m.funcs.get(CHECK)
+        _refute_or_unproved(rep, rid, m, f, cname, "shape proof inconclusive: " + probe.violations[0]["message"][:160])
+        return
+    rep.merge(probe.export())
+
+
+def _rule_compare_shape(rep, m, cname):
     rid = "C02.D4"
     f = m.funcs.get(CHECK)
     if f is None or f.decl:
@@ -495,13 +513,29 @@ def _refute_or_unproved(rep, rid, m, f, cname, why):
     base = bytes(range(0x10, 0x20))
     witness = None
     try:
-        for bit in [None] + list(range(128)):
+        cases = [None] + list(range(128))
+        # multi-bit differences inside one byte (accumulator / verdict arithmetic), and in all bytes at once
+        for byte in range(16):
+            for dv in (0x81, 0xff, 0x55, 0xaa, 0x7f, 0xfe, 0x03, 0xc0):
+                cases.append((byte, dv))
+        cases.append(("all", 0xff))
+        cases.append(("all", 0x01))
+        for bit in cases:
             mc = Machine(m)
             t1 = mc.new_obj("t1", 16, symbolic=False)
             t2 = mc.new_obj("t2", 16, symbolic=False)
             pt = mc.new_obj("pt", 4, symbolic=False)
             other = bytearray(base)
-            if bit is not None:
+            desc = None
+            if isinstance(bit, tuple):
+                if bit[0] == "all":
+                    for k in range(16):
+                        other[k] ^= bit[1]
+                    desc = "every byte XORed with %#04x" % bit[1]
+                else:
+                    other[bit[0]] ^= bit[1]
+                    desc = "byte %d XORed with %#04x" % bit
+            elif bit is not None:
                 other[bit // 8] ^= 1 << (bit % 8)
             mc.store(t1, cbytes(base))
             mc.store(t2, cbytes(bytes(other)))
@@ -513,8 +547,9 @@ def _refute_or_unproved(rep, rid, m, f, cname, why):
                     witness = "identical tags give verdict %s / plaintext %s" % (r, plain.hex())
                     break
             elif r != 0xffffffff or plain != b"\x00" * 4:
-                witness = ("tags differing only in bit %d of byte %d give verdict %s and plaintext %s (expected -1 and a "
-                           "wiped plaintext)" % (bit % 8, bit // 8, "0 (accepted)" if r == 0 else r, plain.hex()))
+                witness = ("tags differing only in %s give verdict %s and plaintext %s (expected -1 and a "
+                           "wiped plaintext)" % (desc or "bit %d of byte %d" % (bit % 8, bit // 8),
+                                                 "0 (accepted)" if r == 0 else r, plain.hex()))
                 break
     except Unsupported as e:
         rep.unproved_item(rid, "%s: %s has an unrecognised shape (%s) and could not be evaluated: %s" % (cname, CHECK, why, e))
@@ -523,5 +558,5 @@ def _refute_or_unproved(rep, rid, m, f, cname, why):
         rep.violation(rid, "check_tag:verdict", f.src, "%s: %s" % (CHECK, witness), config=cname)
     else:
         for _ in range(5):
-            rep.unproved_item(rid, "%s: %s has an unrecognised shape (%s); equal tags and all 128 single-bit differences "
+            rep.unproved_item(rid, "%s: %s has an unrecognised shape (%s); equal tags, all 128 single-bit differences and 130 multi-bit differences "
                               "are judged correctly, full proof not available" % (cname, CHECK, why))
